@@ -341,7 +341,9 @@ func (dec *fecDecoder) getShardId(seqid uint32) uint32 {
 func (dec *fecDecoder) discardShards() {
 	for shardId, shard := range dec.shardSet {
 		// discard shards that are too old
-		if _itimediff(dec.newestShardId*uint32(dec.shardSize), shardId*uint32(dec.shardSize)) > maxShardSets*int32(dec.shardSize) {
+		// too far behind the newest group - or "ahead" of it, which only a group exactly 2^31 ids
+		// away can be (a genuinely newer group would have become the newest)
+		if d := _itimediff(dec.newestShardId*uint32(dec.shardSize), shardId*uint32(dec.shardSize)); d > maxShardSets*int32(dec.shardSize) || d < 0 {
 			//println("flushing shard", shardId, "minShardId", dec.minShardId, _itimediff(dec.minShardId, shardId))
 			for _, pkt := range shard.elements {
 				defaultBufferPool.Put(pkt)
